@@ -11,6 +11,8 @@ sys.path.insert(0, str(Path(__file__).resolve().parent))
 from common import Ctx, MachineryError  # noqa: E402
 
 MODULES = {
+    "C14": "c14_network",
+    "C15": "c14_network",
     "C19": "c19_solve",
 }
 
